@@ -139,6 +139,10 @@ def _encode_gate(
     gate_type_id = _gate_type_to_int.get(gate_.gate_type)
     if gate_type_id is None:
         raise CircuitEncodingError("Tried to encode unsupported gate type")
+    if len(gate_.operands) != _get_arity(gate_.gate_type):
+        raise CircuitEncodingError(
+            "Tried to encode a gate whose number of operands the format cannot represent"
+        )
     bit_writer.write_number(gate_type_id, GATE_TYPE_BIT_SIZE)
     for operand_label in gate_.operands:
         bit_writer.write_number(gate_identifiers[operand_label], word_size)
